@@ -8,7 +8,9 @@
 (*   activate / deactivate   x = activity, y = len(scenarioStack) after the call                 *)
 (*   pre        the preamble has been executed (parse_string is entered)                         *)
 (*   ok         s1 = stage that returned normally                                               *)
-(*   fail       s1 = stage that raised, s2 = kind, x = line named by the error (0 = none)        *)
+(*   fail       s1 = stage that raised, s2 = kind, x = line named by the error (0 = none),       *)
+(*              y = 1 iff the error's text is the text of that line of the file it names (when   *)
+(*              the program was compiled from a file on disk; a line past the end has no text)    *)
 (*   execstate  x, y, z = params / scenarios / simulatorFactory present                          *)
 (*   push       s1 = "import" | "model", x = lines of the imported Scenic module                  *)
 (*   poppath    topLevelNamespace left;   return = back from an imported module                  *)
@@ -46,15 +48,33 @@ TraceInit == tid \in 1..NT /\ i = 1 /\ Init
 \*                                  ValueError in get_expr_name                                 (Parse)
 \*   error-span-lines-keyerror      an error span reaching lines the tokenizer no longer holds:
 \*                                  KeyError in Tokenizer.get_lines                             (Parse)
-\*   number-literal-raw-syntaxerror `010`: a raw SyntaxError of ast.literal_eval, file <unknown>  (Parse)
+\*   number-literal-raw-syntaxerror `010`, `"\x"`: a raw SyntaxError of ast.literal_eval, file <unknown> (Parse)
 \*   nul-byte-systemerror           a NUL byte inside an indented block: SystemError from the
 \*                                  standard tokenizer                                          (Parse)
 \*   behavior-annassign-crash       `x: int = 0`, `type T = ...` or `(x := ...)` binding a local of a
 \*                                  behaviour / monitor body: TypeError from compile()          (PyCompile)
+\*   require-prob-not-float         `require[1j] x`: ValueError of float() in the rule's action        (Parse)
+\*   nested-brackets-recursionerror about 21 nested brackets: RecursionError in the PEG parser          (Parse)
+\*   legacy-instance-error-attributeerror  `Object beyond x by y` (no `new`): AttributeError while
+\*                                  building the "forgot 'new'?" error                          (Parse)
+\*   temporal-in-ifexp-assertion    `require always x if y else z`: AssertionError, no visitor   (Compile)
+\*   require-monitor-as-typeerror   `require monitor M() as n`: the name is a list               (PyCompile)
+\*   try-interrupt-else-valueerror  try / interrupt / else without except                        (PyCompile)
+\*   empty-target-elts-none         `for () in x`, `[] = x`, `del ()`: Tuple/List(elts=None)      (PyCompile)
+\*   nul-byte-file-typeerror        a NUL byte in a program compiled from a FILE: the error built for it
+\*                                  has no offset and errors.getText compares None                (Parse)
+\*   non-utf8-file-unicodedecodeerror  a source file that is not UTF-8: UnicodeDecodeError of
+\*                                  stream.read().decode in compileStream                        (Preamble)
 KnownCrashStage ==
-  [k \in {"fstring-conversion-crash", "invalid-target-scenic-expr", "error-span-lines-keyerror",
-          "number-literal-raw-syntaxerror", "nul-byte-systemerror", "behavior-annassign-crash"} |->
-     IF k = "behavior-annassign-crash" THEN "PyCompile" ELSE "Parse"]
+  [k \in {"nul-byte-file-typeerror", "non-utf8-file-unicodedecodeerror",
+          "fstring-conversion-crash", "invalid-target-scenic-expr", "error-span-lines-keyerror",
+          "number-literal-raw-syntaxerror", "nul-byte-systemerror", "behavior-annassign-crash",
+          "require-prob-not-float", "nested-brackets-recursionerror", "legacy-instance-error-attributeerror",
+          "temporal-in-ifexp-assertion", "require-monitor-as-typeerror", "try-interrupt-else-valueerror",
+          "empty-target-elts-none"} |->
+     IF k \in {"behavior-annassign-crash", "require-monitor-as-typeerror", "try-interrupt-else-valueerror", "empty-target-elts-none"}
+     THEN "PyCompile" ELSE IF k = "temporal-in-ifexp-assertion" THEN "Compile"
+     ELSE IF k = "non-utf8-file-unicodedecodeerror" THEN "Preamble" ELSE "Parse"]
 KnownKeys == DOMAIN KnownCrashStage
 CrashAsImplemented(st) ==
   /\ ~Idle /\ ~Failing /\ Top.stage = st
@@ -77,7 +97,9 @@ Match(e) ==
     [] e[1] = "deactivate" -> (Deactivate /\ activity' = e[4] /\ stackLen' = e[5])
     [] e[1] = "pre" -> Preamble
     [] e[1] = "ok" -> (Top.stage = e[2] /\ OkStage(e[2]))
-    [] e[1] = "fail" -> (Top.stage = e[2] /\ (FailStage(e[2], e[3], e[4]) \/ (e[3] = "internal" /\ CrashAsImplemented(e[2]))))
+    [] e[1] = "fail" -> (/\ Top.stage = e[2]
+                         /\ (e[3] = "syntax" => e[5] = 1)       \* a located error carries the text of its line
+                         /\ (FailStage(e[2], e[3], e[4]) \/ (e[3] = "internal" /\ CrashAsImplemented(e[2]))))
     [] e[1] = "execstate" -> (\E p, s, f \in BOOLEAN : ExecStep(p, s, f) /\ params' = B(e[4]) /\ scens' = B(e[5]) /\ simf' = B(e[6]))
     [] e[1] = "push" -> (IF e[2] = "model" THEN ExecModel(e[4]) /\ pending' = <<>> ELSE ExecImport(e[4]))
     [] e[1] = "poppath" -> PopPath
